@@ -224,7 +224,9 @@ func (m *Machine) callSSA(caller *Frame, pos token.Pos, fn *ssa.Function, args [
 		}
 	}
 	if in := m.lookupIntrinsic(fn); in != nil {
-		return in(m, caller, fn, args)
+		if r := in(m, caller, fn, args); r != notHandled {
+			return r
+		}
 	}
 	if m.pool.monitor && fn.Signature.Recv() != nil && len(args) > 0 {
 		m.checkPooledReceiver(caller, fn, args[0])
